@@ -16,13 +16,13 @@ vars == <<tid, l>>
 
 Tr  == Traces[tid]
 Evs == Tr.events
-RES == Tr.resolution
 
 Init == tid \in 1..Len(Traces) /\ l = 0
 Next == l < Len(Evs) /\ l' = l + 1 /\ tid' = tid
 Spec == Init /\ [][Next]_vars
 
 E  == Evs[l]
+RES == E.rs                \* the resolution in force when the call was made (a program may change fixedpoint.resolution)
 A1 == E.args[1][1]
 A2 == E.args[2][1]
 
